@@ -141,7 +141,9 @@ def c_train(ctx, case):
              "per-class-e-steps" if chunked else "whole-set-e-step",
              "multi-session-class" if multi else None)
 
-    # fit == the same composition
+    # fit == the same composition.  U, V, D live in feature units: entries far below 1e-12 of the spread of the
+    # features (a D that collapsed to 1e-25, say) are rounding noise whose digits the order of the additions decides
+    unit = float(np.sqrt(np.mean(np.asarray(case["ubm"]["variances"], float))))
     f = fresh(case)
     f.fit(X, y)
     for name in "VUD":
@@ -149,7 +151,7 @@ def c_train(ctx, case):
         # the per-class composition adds the accumulators in another order than fit's single E-step: re-association
         # tolerance as for the other list-vs-partitioned comparisons (C04, C12); the same order must agree to 1e-9
         ctx.close(a, b, "fit(em_iterations=%d) %s vs composition of public steps" % (case["em"], name),
-                  rtol=1e-7 if chunked else 1e-9, atol=(1e-9 if chunked else 1e-11) * (np.abs(b).max() + 1e-300))
+                  rtol=1e-7 if chunked else 1e-9, atol=(1e-9 if chunked else 1e-11) * (np.abs(b).max() + 1e-300) + 1e-12 * unit)
 
     # a second fit() on the SAME object continues from the U, V, D it holds and from nothing else: a fresh machine
     # that is given those matrices and trained once ends in the same place
@@ -160,7 +162,7 @@ def c_train(ctx, case):
     for name in "VUD":
         a, b = np.asarray(getattr(f, name), float), np.asarray(getattr(g, name), float)
         ctx.close(a, b, "second fit on the same machine, %s vs a fresh machine started from the first fit's result" % name,
-                  rtol=1e-9, atol=1e-11 * (np.abs(b).max() + 1e-300))
+                  rtol=1e-9, atol=1e-11 * (np.abs(b).max() + 1e-300) + 1e-12 * unit)
 
 
 @REG.obligation("fit_v_trajectory_monotone", g_train, quick=200, thorough=4000, shard_size=40)
@@ -223,4 +225,4 @@ def c_array(ctx, case):
         ga, gb = np.asarray(getattr(a, name), float), np.asarray(getattr(b, name), float)
         ctx.finite(ga, name)
         ctx.close(ga, gb, "fit_using_array %s vs fit on the statistics of the same arrays" % name, rtol=1e-7,
-                  atol=1e-9 * (np.abs(gb).max() + 1e-300))
+                  atol=1e-9 * (np.abs(gb).max() + 1e-300) + 1e-12 * float(np.sqrt(np.mean(np.asarray(case["ubm"]["variances"], float)))))
